@@ -10,6 +10,7 @@ From Coq Require Import Init.Byte.
 From FFS Require Import Base.Res Base.Bytes Abi.Types Abi.ModelTypes Abi.EntryModel Abi.EntrySpec.
 From FFS Require Import AbiType.Spec Abi.EntryProofs Abi.EntryProofsEvent Abi.EntryLink.
 From FFS Require AbiType.Syntax Abi.EncModel Abi.EncProofs3 Abi.Spec Abi.EntryInst.
+From FFS Require Abi.DecModel Abi.DecSpec Abi.DecProofs3 Abi.EntryInstC03.
 Import ListNotations.
 
 (* 1. The signature is name(canonical type, ...): aliases expanded, tuples as parenthesised lists
@@ -241,6 +242,30 @@ Theorem C12_calldata_is_spec :
 Proof. exact Abi.EntryInst.calldata_is_spec. Qed.
 Print Assumptions C12_calldata_is_spec.
 
+(* 10. The round trip of 3c with its codec-law hypothesis discharged: encoder model of C02, decoder model
+       of C03 (theorem DecProofs4.DecodeABIData_enc = C03_decode_encode).  For every entry whose
+       parameter list is a valid type list without fixed-point members and without T[0] (C03's
+       quantifier) and every well-typed argument tuple within the sizes the two models accept
+       ([weight_ok]: C02's bound; encoding shorter than 2^32 bytes and [counts_ok]: C03's): the call data
+       is selector ++ enc((T1..Tn), x) and DecodeCallData of it returns exactly the tree of x
+       ([cv_of]: same numbers / bytes / strings / lengths, every node carrying its component). *)
+Theorem C12_calldata_roundtrip_codec :
+  forall (H : bytes -> bytes), (forall m, length (H m) = 32%nat) ->
+  forall (e : entry) (cs : list tcomp) (x : cval),
+    tree_children (e_inputs e) = Ok cs -> all_suffix_canonical cs ->
+    let tc := TCTuple cs [] in
+    tc_wf tc = true -> tc_no_fixed_point tc = true -> tc_no_zero_len tc = true ->
+    typed_as tc x = true -> Abi.EncProofs3.values_ok x = true ->
+    Abi.Spec.well_typed (ty_of tc) (val_of x) = true -> Abi.EncProofs3.weight_ok (val_of x) ->
+    (Abi.DecModel.zlen (Abi.Spec.enc (ty_of tc) (val_of x)) < 2 ^ 32)%Z ->
+    Abi.DecProofs3.counts_ok (val_of x) = true ->
+    exists b,
+      EncodeCallData H Abi.EncModel.EncodeABIData e x = Ok b /\
+      b = selector_spec H (e_name e) (map ty_of cs) ++ Abi.Spec.enc (TTuple (map ty_of cs)) (val_of x) /\
+      DecodeCallData H Abi.DecModel.DecodeABIData e b = Ok (Abi.DecSpec.cv_of tc (val_of x)).
+Proof. exact Abi.EntryInstC03.calldata_roundtrip_codec. Qed.
+Print Assumptions C12_calldata_roundtrip_codec.
+
 (* ---------- non-vacuity ---------- *)
 From Coq Require Import String.
 From FFS Require Abi.EncModel Abi.DecModel Rlp.Model.
@@ -287,6 +312,19 @@ Proof.
   split; [vm_compute; reflexivity|]. split; [vm_compute; reflexivity|]. split; [vm_compute; reflexivity|].
   split; [vm_compute; reflexivity|]. split; [vm_compute; reflexivity|]. split; [vm_compute; reflexivity|].
   unfold Abi.EncProofs3.weight_ok. vm_compute. reflexivity.
+Qed.
+
+(* the two extra guards of C12_calldata_roundtrip_codec hold for the same arguments, and its conclusion
+   is the tree that was encoded *)
+Example C12_calldata_roundtrip_codec_nonvacuous :
+  let cs := [tAddr "to"; tU256 "amount"] in
+  let args := CV (Some (TCTuple cs []))
+                 [CV (Some (tAddr "to")) [] (GBigInt 255); CV (Some (tU256 "amount")) [] (GBigInt 1000)] GNil in
+  (Abi.DecModel.zlen (Abi.Spec.enc (ty_of (TCTuple cs [])) (val_of args)) < 2 ^ 32)%Z /\
+  Abi.DecProofs3.counts_ok (val_of args) = true /\
+  Abi.DecSpec.cv_of (TCTuple cs []) (val_of args) = args.
+Proof.
+  cbv zeta. split; [vm_compute; reflexivity|]. split; vm_compute; reflexivity.
 Qed.
 
 Example C12_calldata_nonvacuous :
